@@ -180,6 +180,20 @@ func buildCorpus() [][]byte {
 			}
 		}
 	}
+	// every prefix of a few typical inputs (systematic truncation)
+	gc := gobCorpus()
+	small := gc[0]
+	for _, g := range gc {
+		if len(g) < len(small) {
+			small = g
+		}
+	}
+	for _, full := range [][]byte{[]byte("http://example.com/~jdoe"), []byte("https://example.com/~jdoe?page=2#top"), []byte(`{"id":"https://a.example/n/1","type":"Note","name":"x","to":["https://a.example/u"],"published":"2021-01-01T00:00:00Z"}`),
+		[]byte(`"https://a.example/quoted"`), []byte(`{"en":"hello","fr":"salut"}`), small} {
+		for i := 1; i < len(full); i++ {
+			c = append(c, full[:i])
+		}
+	}
 	// every single byte, and some two-byte inputs
 	for b := 0; b < 256; b++ {
 		c = append(c, []byte{byte(b)})
@@ -317,7 +331,7 @@ func decodeOnce(c *Ctx, e decodeEntry, in []byte, followUps bool) {
 			continue
 		}
 		c.Pending("follow-up " + op.Name + " after " + e.Name + " :: " + base64.StdEncoding.EncodeToString(in[:minInt(len(in), 160)]))
-		c.Guard("follow-up "+op.Name+" after "+decoderFamily(e.Name), func() { _ = op.Run(it) })
+		c.Guard("follow-up "+op.Name+" after "+decoderFamily(e.Name), func() { _ = op.apply(it, nil) })
 		c.Eval(1)
 		c.Count("follow-ups", 1)
 	}
@@ -368,7 +382,7 @@ func init() {
 					}
 					decodeOnce(c, e, in, true)
 				}},
-				{Name: "mutations", N: tierN(tier, 200000, 5000000), Run: func(c *Ctx, idx int) {
+				{Name: "mutations", N: tierN(tier, 100000, 5000000), Run: func(c *Ctx, idx int) {
 					if c.Build != "plain" && idx%10 != 0 {
 						return
 					}
@@ -383,7 +397,7 @@ func init() {
 			}
 		},
 		Floors: func(tier string) map[string]int64 {
-			return map[string]int64{"decodes": int64(len(corpus)*ne + tierN(tier, 150000, 4000000)), "values-returned": 20000, "follow-ups": 500000, "input:valid-json": 10000, "input:binary": 10000, "input:1-byte": 1000}
+			return map[string]int64{"decodes": int64(len(corpus)*ne + tierN(tier, 80000, 4000000)), "values-returned": 20000, "follow-ups": 500000, "input:valid-json": 10000, "input:binary": 10000, "input:1-byte": 1000}
 		},
 		Assumptions: []string{
 			"the allocation bound (32 MiB + 16 KiB per input byte) is deliberately lax: the JSON dependency allocates ~4.5 MB for a 314-byte nesting bomb before its own depth limit refuses it",
